@@ -304,8 +304,6 @@ impl MultiState {
                 .as_ref()
                 .map(|d| d.visual_line_count(.., width))
                 .unwrap_or_default();
-            // Track the total number of zombie lines on the screen.
-            self.zombie_lines_count += line_count;
 
             // Track the number of zombie lines that will be drawn by this call to draw.
             adjust += line_count;
@@ -354,10 +352,12 @@ impl MultiState {
         }
 
         // The zombie lines were drawn for the last time, so make `DrawTarget` forget about them
-        // so they aren't cleared on next draw.
+        // so they aren't cleared on next draw, and track them as zombie lines on the screen. This
+        // must only happen once the draw went through (it may have been rate limited above).
         if extra_lines.is_none() {
             self.draw_target
                 .adjust_last_line_count(LineAdjust::Keep(adjust));
+            self.zombie_lines_count = self.zombie_lines_count.saturating_add(adjust);
         }
 
         drawable
